@@ -447,6 +447,7 @@ Proof.
   - need_slot p s Hp. apply store_coh; auto using put_none_coh. intros m' E'. injection E' as E'. eapply map_matrix_coh; eauto.
   - need_slot p s Hp. apply store_coh; auto. intros m' E'. injection E' as E'. eapply map_matrix_coh; eauto.
   - need_slot p s Hp. apply put_some_coh; auto.
+  - destruct (d =? s); [exact Hp|]. need_slot p d Hp. need_slot p s Hp. apply put_some_coh; auto.
   - need_slot p s Hp. apply store_op_coh; auto using put_none_coh. intros m' E'. injection E' as E'. eapply map_matrix_coh; eauto.
   - need_slot p s Hp. apply store_op_coh; auto. intros m' E'. injection E' as E'. eapply map_matrix_coh; eauto.
   (* elementwise *)
